@@ -164,8 +164,16 @@ def IsInt64 (i : Int) : Prop := -9223372036854775808 ≤ i ∧ i < 9223372036854
 
 instance (i : Int) : Decidable (IsInt64 i) := by unfold IsInt64; infer_instance
 
-/-- a tree whose integer leaves are machine integers (the values the property is about) -/
+/-- a tree whose integer leaves fit a 64-bit signed integer -/
 abbrev Int64Tree (a : JV) : Prop := AllInts IsInt64 a
+
+/-- an integer that some machine integer type holds: `int64` or `uint64` -/
+def IsMachineInt (i : Int) : Prop := -9223372036854775808 ≤ i ∧ i < 18446744073709551616
+
+instance (i : Int) : Decidable (IsMachineInt i) := by unfold IsMachineInt; infer_instance
+
+/-- a tree whose integer leaves are machine integers (the values the property is about) -/
+abbrev MachineTree (a : JV) : Prop := AllInts IsMachineInt a
 
 /-! ## ignore paths -/
 
